@@ -131,12 +131,12 @@ def run_hypothesis(td: TestDef, n_examples: int, seed: int, col: Collector, tier
     from hypothesis import HealthCheck, Phase, given, settings
 
     excluded = set()
-    state = {"after_fail": 0, "failed": False}
+    state = {"after_fail": 0, "failed": False, "budget": td.shrink_budget}
 
     def body(spec):
         if state["failed"]:
             state["after_fail"] += 1
-            if state["after_fail"] > td.shrink_budget:
+            if state["after_fail"] > state["budget"]:
                 return  # budget used up: stop executing (ends the shrinker quickly)
         res = td.run(spec)
         col.record(td.name, spec, res)
@@ -152,11 +152,13 @@ def run_hypothesis(td: TestDef, n_examples: int, seed: int, col: Collector, tier
         v = new[0]
         col.save_failure(td.name, spec, v, res.info)
         state["failed"] = True
+        if res.expensive:
+            state["budget"] = min(state["budget"], 3)
         raise _Fail(v.clause)
 
     phases = [Phase.generate, Phase.shrink]
     for rnd in range(4):
-        state["after_fail"], state["failed"] = 0, False
+        state["after_fail"], state["failed"], state["budget"] = 0, False, td.shrink_budget
         before = set(col.failures)
         test = settings(
             max_examples=max(1, n_examples),
@@ -190,8 +192,15 @@ def run_hypothesis(td: TestDef, n_examples: int, seed: int, col: Collector, tier
 
 
 def run_enumeration(td: TestDef, shard: int, nshards: int, col: Collector):
+    expensive_failures = 0
+    complete = True
     for spec in td.enumerate(shard, nshards):
+        if expensive_failures >= 2:
+            complete = False  # each further failing case would cost its full bound again: the violation is established
+            break
         res = td.run(spec)
+        if res.violations and res.expensive:
+            expensive_failures += 1
         col.record(td.name, spec, res)
         if res.violations:
             new, known = col.classify(td.name, spec, res)
@@ -199,7 +208,7 @@ def run_enumeration(td: TestDef, shard: int, nshards: int, col: Collector):
                 col.known_hits[e.get("id", e.get("clause"))] += 1
             for v in new:
                 col.save_failure(td.name, spec, v, res.info)
-    col.t(td.name)["exhaustive"] = bool(td.exhaustive)
+    col.t(td.name)["exhaustive"] = bool(td.exhaustive) and complete
 
 
 def run_regressions(mod, col: Collector, tests):
